@@ -19,6 +19,7 @@ inductive Step where
   | trans (j k : Nat)
   | congr (a b : Term) (js : List Nat)
   | bnot (j : Nat)          -- from `a = false` conclude `(not a) = true`, from `a = true` conclude `(not a) = false`
+  | eqT (j : Nat)           -- from `a = b` conclude `(= a b) = true`
 deriving Inhabited
 
 /-- `js[i]` proves `as[i] = bs[i]`, pairwise, same length -/
@@ -45,6 +46,9 @@ def stepEqn (hyps : Array Eqn) (derived : Array Eqn) : Step → Option Eqn
     | _, _ => none
   | .congr a b js => match a, b with
     | .app o1 as, .app o2 bs => if o1 = o2 && argsOk derived as bs js then some (a, b) else none
+  | .eqT j => match derived[j]? with
+    | some (a, b) => some (.app .eq [a, b], tru)
+    | none => none
   | .bnot j => match derived[j]? with
     | some (a, c) => if c = fls then some (.app .not [a], tru) else if c = tru then some (.app .not [a], fls) else none
     | none => none
@@ -57,15 +61,15 @@ def runSteps (hyps : Array Eqn) : List Step → Array Eqn → Option (Array Eqn)
     | none => none
 
 /-- hypotheses contributed by the *negation* of a clause literal `(atom, neg)`:
-`¬(a = b)` in the clause gives `a = b`; `¬p` gives `p = true`; `p` gives `p = false` (Boolean atoms only) -/
-def hypOf (l : Term × Bool) : Option Eqn :=
-  match l with
-  | (.app .eq [a, b], true) => if a.isBool || b.isBool then none else some (a, b)
-  | (.app .eq [_, _], false) => none
-  | (t, true) => if t.isBool then some (t, tru) else none
-  | (t, false) => if t.isBool then some (t, fls) else none
+`¬(a = b)` in the clause gives `a = b` (non-Boolean sides); every Boolean atom `p` gives `p = true` when it occurs
+negated in the clause and `p = false` when it occurs positively (equalities included, as Boolean terms) -/
+def hypsOfLit (l : Term × Bool) : List Eqn :=
+  (match l with
+   | (.app .eq [a, b], true) => if a.isBool || b.isBool then [] else [(a, b)]
+   | _ => []) ++
+  (if l.1.isBool then [(l.1, if l.2 then tru else fls)] else [])
 
-def hypsOf (lits : List (Term × Bool)) : List Eqn := lits.filterMap hypOf
+def hypsOf (lits : List (Term × Bool)) : List Eqn := lits.flatMap hypsOfLit
 
 def isNumeral : Term → Option Rat
   | .app (.num q) [] => some q
